@@ -46,6 +46,7 @@ type Report struct {
 	failing        []*Obligation
 	instances      []*Obligation
 	undecided      []string
+	knownCount     int
 	updateExpected bool
 }
 
@@ -292,6 +293,7 @@ func (r *Report) finish(repo, verif, prop, tier string, writeEvidence bool) int 
 			line := fmt.Sprintf("KNOWN-FINDING: property=%s %s: %s", prop, name, k.What)
 			fmt.Println(line)
 			knownPrinted = append(knownPrinted, line)
+			r.knownCount++
 			return
 		}
 		violations++
